@@ -296,6 +296,12 @@ fn prepare_response(
         http::StatusCode::NO_CONTENT
         | http::StatusCode::CONTINUE
         | http::StatusCode::PROCESSING => *size = BodySize::None,
+        http::StatusCode::NOT_MODIFIED => {
+            // 304 responses never have a body but retain a manually set content-length header
+            // (same rule as the HTTP/1 encoder)
+            skip_len = false;
+            *size = BodySize::None;
+        }
         http::StatusCode::SWITCHING_PROTOCOLS => {
             skip_len = true;
             *size = BodySize::Stream;
